@@ -5,7 +5,7 @@ from common import hx
 from hexlib import HexaryTrie, keccak, Boom, BOOMS, boom, WriteFailed, FailingDict
 
 ID = "C04"
-LEAN_IMPORTS = ["PyTrie.Props.C04", "PyTrie.Props.RawLevel", "PyTrie.Props.NonVacuity"]
+LEAN_IMPORTS = ["PyTrie.Props.C04", "PyTrie.Props.RawLevel", "PyTrie.Props.NonVacuity", "PyTrie.Props.FreeExec"]
 THEOREMS = [
     "PyTrie.Props.C04.set_writes_addressed",
     "PyTrie.Props.C04.delete_writes_addressed",
@@ -23,6 +23,7 @@ THEOREMS = [
     "PyTrie.Props.NonVacuity.c04_next_ok",
     "PyTrie.Props.NonVacuity.c04_op_keeps_complete",
     "PyTrie.Props.Raw.history_is_world_run",
+    "PyTrie.Props.Free.op_is_executor_op",
 ]
 RULE = ("interleaved histories of several non-pruning tries over ONE shared database: set/delete on any trie, fresh tries "
         "opened at earlier roots, at_root snapshot reads, squash_changes blocks (normal exit, exception after n operations, n-th "
